@@ -3,7 +3,8 @@
    complex_probe.py / direct_ptycho_utils.py / direct_ptychography.py (Gen12.Gen_Chi, regenerated
    by harness/translate_chi.py on every run).  ONLY theorem statements closed by `exact`, their
    assumption reports and non-vacuity examples; the proofs are the fixed scripts
-   C12_GenAlg.v, C12_GenDeriv.v, C12_GenFit.v and lib/C12_RealLib.v, lib/C12_Trig.v.
+   C12_GenAlg.v, C12_GenFit.v and lib/C12_RealLib.v, lib/C12_Trig.v.  The gradient theorems
+   (Coquelicot) are in C12_GenPropertiesD.v so that the two files are checked in parallel.
 
    Vocabulary
      env = string -> R                 a coefficient dictionary; an absent name reads 0
@@ -19,9 +20,8 @@
                                        fit_aberrations_from_shifts as a function of the polar
                                        factors of the least-squares matrix *)
 From Coq Require Import Reals String List.
-From Coquelicot Require Import Coquelicot.
 From QV.lib Require Import C12_RealLib C12_Trig.
-From Gen12 Require Import Gen_Chi C12_GenAlg C12_GenDeriv C12_GenFit.
+From Gen12 Require Import Gen_Chi C12_GenAlg C12_GenFit.
 Import ListNotations.
 Local Open Scope R_scope.
 
@@ -42,49 +42,14 @@ Theorem C12_polar_eq_cartesian :
 Proof. exact polar_eq_cartesian. Qed.
 Print Assumptions C12_polar_eq_cartesian.
 
-(* analytic gradient: true derivatives of the surface *)
-Theorem C12_grad_alpha :
-  forall (c : env) (alpha phi lambda : R),
-    lambda <> 0 ->
-    is_derive (fun a => chi_polar c a phi lambda) alpha (dchi_dk c alpha phi / lambda).
-Proof. exact grad_alpha. Qed.
-Print Assumptions C12_grad_alpha.
-
-Theorem C12_grad_phi :
-  forall (c : env) (alpha phi lambda : R),
-    lambda <> 0 ->
-    is_derive (fun p => chi_polar c alpha p lambda) phi (alpha * dchi_dphi c alpha phi / lambda).
-Proof. exact grad_phi. Qed.
-Print Assumptions C12_grad_phi.
-
-(* "the analytic gradient equals the wavelength times the true gradient" *)
-Theorem C12_grad_is_lambda_times_derivative :
-  forall (c : env) (alpha phi lambda : R),
-    lambda <> 0 ->
-    dchi_dk c alpha phi = lambda * Derive (fun a => chi_polar c a phi lambda) alpha /\
-    alpha * dchi_dphi c alpha phi = lambda * Derive (fun p => chi_polar c alpha p lambda) phi.
-Proof. exact grad_is_lambda_times_derivative. Qed.
-Print Assumptions C12_grad_is_lambda_times_derivative.
-
-(* the Cartesian gradient is the polar one rotated by phi ... *)
+(* the Cartesian gradient is the polar one rotated by phi (that it is also lambda times the true
+   Cartesian derivative is C12_grad_cartesian_directional in C12_GenPropertiesD.v) *)
 Theorem C12_cartesian_grad_is_rotation :
   forall (c : env) (alpha phi : R),
     dchi_dx c alpha phi = cos phi * dchi_dk c alpha phi - sin phi * dchi_dphi c alpha phi /\
     dchi_dy c alpha phi = sin phi * dchi_dk c alpha phi + cos phi * dchi_dphi c alpha phi.
 Proof. exact cartesian_grad_rotation. Qed.
 Print Assumptions C12_cartesian_grad_is_rotation.
-
-(* ... and is lambda times the derivative of the surface along any Cartesian direction (dx, dy)
-   of the angle plane (x, y) = alpha (cos phi, sin phi) *)
-Theorem C12_grad_cartesian_directional :
-  forall (c : env) (alpha phi lambda dx dy : R),
-    lambda <> 0 -> alpha <> 0 ->
-    let da := cos phi * dx + sin phi * dy in
-    let dphi := (- sin phi * dx + cos phi * dy) / alpha in
-    is_derive (fun t => chi_polar c (alpha + t * da) (phi + t * dphi) lambda) 0
-              ((dchi_dx c alpha phi * dx + dchi_dy c alpha phi * dy) / lambda).
-Proof. exact grad_cartesian_directional. Qed.
-Print Assumptions C12_grad_cartesian_directional.
 
 (* conversions: Cartesian -> polar -> Cartesian is the identity for EVERY Cartesian set *)
 Theorem C12_cart_polar_roundtrip :
